@@ -30,7 +30,10 @@ type renderCase struct {
 	Bytes      core.B          `json:"bytes,omitempty"`
 	ErrValue   bool            `json:"json_value_implements_error,omitempty"` // the JSON value is a struct (decoded from json_value) whose type also has an Error method
 	PresetCT   bool            `json:"content_type_preset_by_earlier_handler,omitempty"`
-	Overlap    bool            `json:"overlapping_second_request,omitempty"` // a second request passes the Renderer middleware while this one holds its Render and has not rendered yet
+	Overlap    bool            `json:"overlapping_second_request,omitempty"`               // a second request passes the Renderer middleware while this one holds its Render and has not rendered yet
+	Spread     bool            `json:"options_passed_as_slice_then_overwritten,omitempty"` // Renderer(slice...) and the caller reuses the slice afterwards: the middleware keeps the options it was created with
+	EnvMade    string          `json:"env_when_renderer_was_created,omitempty"`            // process environment while Renderer(...) was called ("" = untouched; serial cases only)
+	EnvServed  string          `json:"env_when_request_was_served,omitempty"`              // process environment while the request was served: what is rendered depends on neither
 }
 
 // c17Payload is an ordinary, fully encodable API payload that happens to implement error as well.
@@ -122,6 +125,7 @@ func genRenderCase(rng *rand.Rand) *renderCase {
 		Where:      []string{"app", "group", "route"}[rng.Intn(3)],
 		Overlap:    rng.Intn(5) == 0,
 		PresetCT:   rng.Intn(4) == 0,
+		Spread:     rng.Intn(6) == 0,
 	}
 	switch c.Kind {
 	case "json":
@@ -253,7 +257,26 @@ func judgeRender(w *core.W, c *renderCase) {
 	}
 	var o renderObs
 	f := flamego.NewWithLogger(io.Discard)
-	rnd := flamego.Renderer(flamego.RenderOptions{Charset: c.Charset, JSONIndent: c.JSONIndent, XMLIndent: c.XMLIndent})
+	if c.EnvMade != "" || c.EnvServed != "" {
+		prev := flamego.Env()
+		defer flamego.SetEnv(prev)
+		w.Count("environment-varied")
+	}
+	if c.EnvMade != "" {
+		flamego.SetEnv(flamego.EnvType(c.EnvMade))
+	}
+	var rnd flamego.Handler
+	if c.Spread {
+		sl := []flamego.RenderOptions{{Charset: c.Charset, JSONIndent: c.JSONIndent, XMLIndent: c.XMLIndent}}
+		rnd = flamego.Renderer(sl...)
+		sl[0] = flamego.RenderOptions{Charset: "scribbled", JSONIndent: "@@", XMLIndent: "@@"}
+		w.Count("options-slice-overwritten-after-creation")
+	} else {
+		rnd = flamego.Renderer(flamego.RenderOptions{Charset: c.Charset, JSONIndent: c.JSONIndent, XMLIndent: c.XMLIndent})
+	}
+	if c.EnvServed != "" {
+		flamego.SetEnv(flamego.EnvType(c.EnvServed))
+	}
 	var jsonIn interface{}
 	if c.Kind == "json" {
 		_ = json.Unmarshal(c.JSONVal, &jsonIn)
@@ -408,7 +431,7 @@ func judgeRender(w *core.W, c *renderCase) {
 }
 
 func runC17(r *core.Run) {
-	r.Rule("one Render call per case: JSON (random trees of objects/arrays/strings incl. <>& and control characters/numbers/bools/null, depth<=3), XML (struct with attributes, nested elements, chardata, optional pointer field; XML-valid characters), Binary (arbitrary bytes), PlainText; statuses 100-599; Charset default/custom, JSON/XML indent off/on; Renderer installed as application middleware, group handler or route handler with 0-2 handlers in between; 1/5 of the cases with a second request overlapping between receiving Render and rendering. Oracle: recorded status and Content-Type; body decoded back with encoding/json / encoding/xml deep-equals the input and equals the standard encoder's output for the configured indent; bytes and text verbatim. non-trivial = distinct (method, options, placement, status, value)")
+	r.Rule("one Render call per case: JSON (random trees of objects/arrays/strings incl. <>& and control characters/numbers/bools/null, depth<=3), XML (struct with attributes, nested elements, chardata, optional pointer field; XML-valid characters), Binary (arbitrary bytes), PlainText; statuses 100-599; Charset default/custom, JSON/XML indent off/on; Renderer installed as application middleware, group handler or route handler with 0-2 handlers in between; 1/5 of the cases with a second request overlapping between receiving Render and rendering; 1/6 with the options passed as a slice that the caller overwrites afterwards; 600/12000 serial cases with the process environment set to production/development/test while the Renderer is created and while the request is served. Oracle: recorded status and Content-Type; body decoded back with encoding/json / encoding/xml deep-equals the input and equals the standard encoder's output for the configured indent; bytes and text verbatim. non-trivial = distinct (method, options, placement, status, value)")
 	r.Assume("values are encodable (valid UTF-8 strings for JSON, XML-valid characters for XML); request method POST")
 	c17Canaries(r)
 	n := r.N(100000, 6000000)
@@ -433,7 +456,25 @@ func runC17(r *core.Run) {
 		}
 	})
 	r.GateCounter("status-sweep", 2000)
-	for _, k := range []string{"kind:json", "kind:xml", "kind:binary", "kind:text", "where:app", "where:group", "where:route", "custom-charset", "indented:json", "indented:xml", "overlapping-requests", "content-type-preset", "json-value-implementing-error", "nested-renderers"} {
+	// the process environment (which only Recovery is documented to read) while the Renderer is created and
+	// while the request is served: serial cases, the environment is process-global
+	ws := r.Serial()
+	envs := []string{"production", "development", "test", ""}
+	for i := 0; i < r.N(600, 12000); i++ {
+		rng := r.Rand("render-env", i)
+		c := genRenderCase(rng)
+		c.Overlap = false
+		c.EnvMade, c.EnvServed = envs[rng.Intn(4)], envs[rng.Intn(4)]
+		if i%2 == 0 {
+			c.JSONIndent, c.XMLIndent = "  ", "\t"
+		}
+		ws.Begin("render", c)
+		judgeRender(ws, c)
+	}
+	ws.Done()
+	ws.Merge()
+	r.GateCounter("environment-varied", 300)
+	for _, k := range []string{"kind:json", "kind:xml", "kind:binary", "kind:text", "where:app", "where:group", "where:route", "custom-charset", "indented:json", "indented:xml", "overlapping-requests", "content-type-preset", "json-value-implementing-error", "nested-renderers", "options-slice-overwritten-after-creation"} {
 		r.GateCounter(k, 500)
 	}
 	r.Gate("distinct_nontrivial", r.NonTrivialCount(), 5000)
